@@ -207,5 +207,6 @@ def explore(run_one, max_paths=20000, time_budget_s=None):
         finally:
             CUR.path = None
         out.path = p
+        p.solver = None          # the incremental solver is only needed while the path runs; facts are kept
         results.append(out)
     return results
